@@ -133,7 +133,13 @@ func runCOS(env *Env, s Scenario) {
 
 		return
 	}
-	dir, err := os.MkdirTemp("", "vsim-os-")
+	// (the stand-in legs get a blank in every path the options name; the OpenSSH client splits the
+	// value of UserKnownHostsFile at blanks itself, whatever it is given)
+	pat := "vsim os-"
+	if sc.Leg == "openssh" {
+		pat = "vsim-os-"
+	}
+	dir, err := os.MkdirTemp("", pat)
 	if err != nil {
 		env.Res.HarnessError = err.Error()
 
